@@ -148,57 +148,87 @@ func selfTestBenign(c *Ctx) []selfTestResult {
 	if b, err := os.ReadFile(cacheFile); err == nil {
 		json.Unmarshal(b, &all)
 	}
-	if len(all) != len(ids) {
-		// one computation at a time: a concurrent thorough run of another property waits for the result
+	// variants not yet in the cache are computed now, for at most the self-test's time budget (default 10 minutes per
+	// invocation, ZNCHECK_BENIGN_BUDGET_MIN); the cache accumulates, so later thorough runs continue where this one
+	// stopped. One computation at a time: a concurrent thorough run of another property waits briefly, then reports
+	// what is there.
+	missing := func() []string {
+		var m []string
+		// the whole-tree variants first, then the refactorings
+		for _, id := range ids {
+			if _, ok := all[id]; !ok && (strings.HasPrefix(id, "alpha-rename-") || strings.HasPrefix(id, "tail-split-")) {
+				m = append(m, id)
+			}
+		}
+		for _, id := range ids {
+			if _, ok := all[id]; !ok && !(strings.HasPrefix(id, "alpha-rename-") || strings.HasPrefix(id, "tail-split-")) {
+				m = append(m, id)
+			}
+		}
+		return m
+	}
+	budget := 10 * time.Minute
+	if v := os.Getenv("ZNCHECK_BENIGN_BUDGET_MIN"); v != "" {
+		var n int
+		if _, err := fmt.Sscanf(v, "%d", &n); err == nil && n >= 0 {
+			budget = time.Duration(n) * time.Minute
+		}
+	}
+	if len(missing()) > 0 && budget > 0 {
 		os.MkdirAll(filepath.Dir(cacheFile), 0o755)
 		lock := cacheFile + ".lock"
-		for i := 0; ; i++ {
+		locked := false
+		for i := 0; i < 12 && !locked; i++ {
 			lf, err := os.OpenFile(lock, os.O_CREATE|os.O_EXCL|os.O_WRONLY, 0o644)
 			if err == nil {
 				lf.Close()
-				defer os.Remove(lock)
+				locked = true
 				break
 			}
-			if st, e2 := os.Stat(lock); e2 == nil && time.Since(st.ModTime()) > 90*time.Minute {
+			if st, e2 := os.Stat(lock); e2 == nil && time.Since(st.ModTime()) > 45*time.Minute {
 				os.Remove(lock) // stale
 				continue
 			}
 			time.Sleep(10 * time.Second)
 			if b, err := os.ReadFile(cacheFile); err == nil {
 				json.Unmarshal(b, &all)
-				if len(all) == len(ids) {
-					break
-				}
 			}
-			if i > 720 {
+			if len(missing()) == 0 {
 				break
 			}
 		}
-	}
-	if len(all) != len(ids) {
-		all = map[string]map[string]selfTestResult{}
-		var mu sync.Mutex
-		var wg sync.WaitGroup
-		sem := make(chan struct{}, 6)
-		for _, id := range ids {
-			wg.Add(1)
-			go func(id string) {
-				defer wg.Done()
-				sem <- struct{}{}
-				defer func() { <-sem }()
-				r := runOneBenign(c, self, dir, id)
-				mu.Lock()
-				all[id] = r
-				mu.Unlock()
-			}(id)
-		}
-		wg.Wait()
-		os.MkdirAll(filepath.Dir(cacheFile), 0o755)
-		if b, err := json.Marshal(all); err == nil {
-			tmp := cacheFile + fmt.Sprintf(".%d", os.Getpid())
-			if os.WriteFile(tmp, b, 0o644) == nil {
-				os.Rename(tmp, cacheFile)
+		if locked {
+			if b, err := os.ReadFile(cacheFile); err == nil {
+				json.Unmarshal(b, &all)
 			}
+			deadline := time.Now().Add(budget)
+			var mu sync.Mutex
+			var wg sync.WaitGroup
+			sem := make(chan struct{}, 6)
+			for _, id := range missing() {
+				sem <- struct{}{}
+				if time.Now().After(deadline) {
+					<-sem
+					break
+				}
+				wg.Add(1)
+				go func(id string) {
+					defer wg.Done()
+					defer func() { <-sem }()
+					r := runOneBenign(c, self, dir, id)
+					mu.Lock()
+					all[id] = r
+					mu.Unlock()
+				}(id)
+			}
+			wg.Wait()
+			if b, err := json.Marshal(all); err == nil {
+				tmp := cacheFile + fmt.Sprintf(".%d", os.Getpid())
+				if os.WriteFile(tmp, b, 0o644) == nil {
+					os.Rename(tmp, cacheFile)
+				}
+			}
+			os.Remove(lock)
 		}
 	}
 	var results []selfTestResult
@@ -222,7 +252,7 @@ func selfTestBenign(c *Ctx) []selfTestResult {
 		if !ok {
 			r = all[id]["*"]
 			if r.Seed == "" {
-				r = selfTestResult{Seed: id, Result: "skipped(no result)"}
+				r = selfTestResult{Seed: id, Result: "skipped(not run yet: time budget of the self-test; the next thorough run continues)"}
 			}
 		}
 		results = append(results, r)
